@@ -127,11 +127,12 @@ def run(ctx, mode):
     # (the trace is flushed line by line), the panic becomes an event of the schedule it happened in, and a new
     # process goes on with the next schedule
     base, crashes = 0, 0
+    atrace = ctx.path("client_agent_%s.ndjson" % mode)
     open(trace, "w").close()
     while True:
         part = ctx.path("client_part.ndjson")
         rc, out = ctx.drive(h, "TestVerifClientReplay", env={"VERIF_TRACE_OUT": part, "VERIF_VECTORS": vec, "VERIF_TRACE_SYNC": 1,
-                                                            "VERIF_TR_BASE": base}, timeout=1500 if ctx.quick() else 6000, ok_rc=(0, 1, 2))
+                                                            "VERIF_TR_BASE": base, "VERIF_AGENT_TRACE_OUT": atrace}, timeout=1500 if ctx.quick() else 6000, ok_rc=(0, 1, 2))
         with open(part) as fh:
             lines = [ln for ln in fh if ln.endswith("\n")]
         last = 0
@@ -158,6 +159,11 @@ def run(ctx, mode):
     files = ctx.shard(trace, vlib.NCPU * 2, group_key="tr")
     ctx.validate("ClientTrace", files, env={"VERIF_MODE": mode}, heap_gb=4, timeout=2400)
     ctx.add_samples(trace, 5, maxlen=400)
+    # I layer: the real Agent's own history inside the replayed client runs (calls, results, events - sequential in a
+    # gated replay) against AgentCore; a mismatch is model drift (the Agent has its own checks, C13/C14)
+    if os.path.exists(atrace) and os.path.getsize(atrace) > 0:
+        afiles = ctx.shard(atrace, vlib.NCPU, group_key="tr", prefix="agent")
+        ctx.validate("AgentTrace", afiles, env={"VERIF_AGENT_LAYER": "I"}, heap_gb=3, timeout=1800)
     nfree = 0
     if rin is None:
         # free-running goroutines (the library's own ticker collector, lossy/reordering responder, Close raced
